@@ -48,8 +48,12 @@ def strip_dup(obs):
     out = []
     for o in obs:
         o = dict(o)
-        o.pop("dup", None)
+        # a duplicate-key wrapper is the library's intended cross-block influence - when the block it refers to is a block
+        # the library holds; a key "taken" by something inside a failed block is damage done by a malformed neighbour
+        if o.pop("dup", None) and o.get("dup_prev_held") is False:
+            o["flagged_duplicate_of_a_block_the_library_does_not_hold"] = True
         o.pop("dup_key", None)
+        o.pop("dup_prev_held", None)
         out.append(o)
     return out
 
@@ -219,6 +223,13 @@ def run(chk: core.Check):
             x = corrupt(rnd, block_doc(rnd, rnd.randint(1, 2)))
         else:
             x = rnd.choice(splitpipe.garbage(rnd, 1, 30))
+        if k % 40 == 7:
+            # X is a damaged copy of the block D2 starts with (same key): a field key typed twice, a lost brace, a lost '='
+            key = "k%d" % rnd.randint(0, 9)
+            head = "@article{%s,\n  title = {T},\n  year = 2001\n}" % key
+            x = rnd.choice(["@article{%s,\n  title = {T},\n  title = 2001\n}" % key, "@article{%s,\n  title = {T,\n  year = 2001\n}" % key,
+                            "@article{%s,\n  title {T},\n  year = 2001\n}" % key, "@article{%s, a = 1, A = 2, a = 3}" % key])
+            d2 = head + "\n" + d2
         bad = prefix_only(bib, d1, x) or neighbours(bib, d1, x, d2)
         t3 += 1
         if bad:
